@@ -24,9 +24,12 @@ def wants_x(c):
 
 encode = iomodel.encode
 render = iomodel.render
+canon = iomodel.canon
 
 
 def impl(c):
+    if c["op"] in iomodel.MODEL_OPS:
+        return iomodel.impl(c)
     return {fmt: ioops.save_text(c["tg"], fmt, c["blanks"], c.get("min"), c.get("max"), via_file=False) for fmt in ioops.FORMATS}
 
 
@@ -73,6 +76,8 @@ def same_content(want, got, fmt, sig):
 
 
 def oracle(c, r):
+    if c["op"] in iomodel.MODEL_OPS:
+        return None          # model-correspondence case: compared with the Lean model only
     want = expected(c)
     decoded = {}
     for fmt in ioops.FORMATS:
@@ -105,6 +110,8 @@ def oracle(c, r):
 
 
 def tags(c, r):
+    if c["op"] in iomodel.MODEL_OPS:
+        return ["model:" + c["op"]] + (["err:" + r[1]] if r[0] == "err" else [])
     out = ["blanks:%s" % c["blanks"], c.get("stream", "plain"), "override:%s" % (c.get("min") is not None or c.get("max") is not None)]
     for fmt in ioops.FORMATS:
         if r[fmt][0] == "err":
@@ -113,6 +120,8 @@ def tags(c, r):
 
 
 def nontrivial(c, r):
+    if c["op"] in iomodel.MODEL_OPS:
+        return True
     return any(t["es"] for t in c["tg"]["tiers"])
 
 
@@ -124,6 +133,17 @@ def corpus():
 
 
 def gen(rnd, tier):
+    for c in gen_main(rnd, tier):
+        yield c
+        yield from derived(c, rnd)
+
+
+def derived(c, rnd):
+    for fmt in ("short_textgrid", "long_textgrid"):
+        yield {"op": "emit", "tg": c["tg"], "fmt": fmt, "blanks": c["blanks"], "min": c.get("min"), "max": c.get("max"), "minlen": 1e-8}
+
+
+def gen_main(rnd, tier):
     import props.C01 as C01
     n = 20000 if tier == "thorough" else 2000
     for i in range(n):
